@@ -1,6 +1,7 @@
 package main
 
 import (
+	"fmt"
 	"go/token"
 	"go/types"
 	"sort"
@@ -62,29 +63,28 @@ func init() {
 					r.Check(got == want, fname(fn), "result."+f, fn.Pos(), "%s <- %s", "result.%s is set from %s, the conversion must copy %s: the round trip through the registry structure changes the endpoint", f, got, want)
 				}
 				if spec.fn == "Tars2endpoint" {
-					udp, _ := namedConstInt(r.w.Pkg(endpointPkg), "UDP")
-					pv := st["Proto"]
-					okk, why := false, "Proto is not a choice between \"tcp\" and \"udp\""
-					if phi, ok := pv.(*ssa.Phi); ok {
-						okk = true
-						for i, e := range phi.Edges {
-							s, isS := constString(e)
-							if !isS {
-								okk = false
-								continue
-							}
-							pred := phi.Block().Preds[i]
-							isUDPEdge := false
-							for _, f := range append(facts(pred), edgeFactOf(pred, phi.Block())...) {
-								if c, okc := normFact(f); okc && c.Op == token.EQL && pathOf(c.X) == arg.Name()+".Istcp" {
-									if k, isK := constInt(c.Y); isK && k == udp {
-										isUDPEdge = true
-									}
-								}
-							}
-							if (s == "udp") != isUDPEdge || (s != "udp" && s != "tcp") {
-								okk = false
-								why = "\"" + s + "\" is chosen on an edge where Istcp==UDP is " + map[bool]string{true: "known", false: "not known"}[isUDPEdge]
+					okk, why := true, ""
+					argT := fn.Params[0].Type()
+					for _, kind := range []struct {
+						name string
+						want string
+					}{{"UDP", "udp"}, {"TCP", "tcp"}, {"SSL", "tcp"}} {
+						k, okc := namedConstInt(r.w.Pkg(endpointPkg), kind.name)
+						if !okc {
+							okk, why = false, "constant "+kind.name+" is gone"
+							break
+						}
+						in := unknownStruct(argT)
+						setStructField(&in, argT, "Istcp", cInt(k))
+						runs, complete := cEnumerate(r.w, fn, []cv{in}, nil, 64)
+						if !complete {
+							okk, why = false, "evaluation of Tars2endpoint is not complete"
+							break
+						}
+						for _, run := range runs {
+							got := structField(run.res, fn.Signature.Results().At(0).Type(), "Proto")
+							if eq, kn := (&cinterp{}).ceq(got, cStr(kind.want)); run.abort != "" || !kn || !eq {
+								okk, why = false, fmt.Sprintf("for Istcp == %s the Proto is %s%s, expected %q", kind.name, got, run.abort, kind.want)
 							}
 						}
 					}
@@ -223,18 +223,92 @@ func init() {
 			if !found {
 				r.Bad(fname(fn), "weight normalisation", fn.Pos(), "no normalisation of the weight found")
 			}
-			// protocol -> Istcp
-			iv := st["Istcp"]
-			okT := false
-			if phi, ok := iv.(*ssa.Phi); ok {
-				m := map[int64]bool{}
-				for _, e := range phi.Edges {
-					if k, isK := constInt(e); isK {
-						m[k] = true
+			// protocol -> Istcp / Proto: evaluated for every class of input string (A15)
+			const word = 1
+			type inCase struct {
+				in        cv
+				proto     cv
+				istcp     int64
+				what      string
+			}
+			atom := func(n int, tail bool) cv { return cv{k: 's', atom: word, alen: n, tail: tail} }
+			cases := []inCase{
+				{cv{k: 's', s: "tcp", tail: true}, cStr("tcp"), 1, `"tcp…"`},
+				{cStr("tcp"), cStr("tcp"), 1, `"tcp"`},
+				{cv{k: 's', s: "ssl", tail: true}, cStr("tcp"), 2, `"ssl…"`},
+				{cStr("ssl"), cStr("tcp"), 2, `"ssl"`},
+				{atom(3, true), atom(3, false), 0, "another three-letter word followed by options"},
+				{atom(3, false), atom(3, false), 0, "another three-letter word"},
+				{atom(2, false), atom(2, false), 0, "a two-letter string"},
+				{atom(1, false), atom(1, false), 0, "a one-letter string"},
+				{cStr(""), cStr(""), 0, "the empty string"},
+			}
+			okT, why := true, ""
+			nPaths := 0
+			for _, c := range cases {
+				runs, complete := cEnumerate(r.w, fn, []cv{c.in}, map[int][]string{word: {"tcp", "ssl"}}, 256)
+				if !complete {
+					okT, why = false, "evaluation of Parse for "+c.what+" is not complete (too many undetermined branches)"
+					break
+				}
+				for _, run := range runs {
+					nPaths++
+					if run.abort != "" {
+						okT, why = false, "Parse("+c.what+") "+run.abort
+						break
+					}
+					gi, gp := structField(run.res, fn.Signature.Results().At(0).Type(), "Istcp"), structField(run.res, fn.Signature.Results().At(0).Type(), "Proto")
+					ci := &cinterp{}
+					eqI, kI := ci.ceq(gi, cInt(c.istcp))
+					eqP, kP := ci.ceq(gp, c.proto)
+					if !kI || !eqI || !kP || !eqP {
+						okT, why = false, fmt.Sprintf("Parse(%s) yields Proto %s, Istcp %s on some path; expected Proto %s, Istcp %d", c.what, gp, gi, c.proto, c.istcp)
+						break
 					}
 				}
-				okT = m[0] && m[1] && m[2] && len(phi.Edges) == 3
+				if !okT {
+					break
+				}
 			}
-			r.Check(okT, fname(fn), "Istcp from the protocol word", fn.Pos(), "tcp -> 1, ssl -> 2, otherwise 0", "Istcp is not chosen among 0/1/2 by the protocol word")
+			r.Check(okT, fname(fn), "Istcp from the protocol word", fn.Pos(), fmt.Sprintf("tcp -> 1, ssl -> 2 (Proto tcp), otherwise 0 with the word kept; %d paths over %d input classes", nPaths, len(cases)), "%s", why)
 		}})
+}
+
+// structField picks a named field out of an evaluated struct value.
+func structField(v cv, t types.Type, name string) cv {
+	st, ok := t.Underlying().(*types.Struct)
+	if !ok || v.k != 'S' {
+		return cUnknown
+	}
+	for i := 0; i < st.NumFields() && i < len(v.el); i++ {
+		if st.Field(i).Name() == name {
+			return v.el[i]
+		}
+	}
+	return cUnknown
+}
+
+func setStructField(v *cv, t types.Type, name string, x cv) {
+	st, ok := t.Underlying().(*types.Struct)
+	if !ok || v.k != 'S' {
+		return
+	}
+	for i := 0; i < st.NumFields() && i < len(v.el); i++ {
+		if st.Field(i).Name() == name {
+			v.el[i] = x
+		}
+	}
+}
+
+// unknownStruct: a struct value of which nothing is known.
+func unknownStruct(t types.Type) cv {
+	st, ok := t.Underlying().(*types.Struct)
+	if !ok {
+		return cUnknown
+	}
+	out := cv{k: 'S'}
+	for i := 0; i < st.NumFields(); i++ {
+		out.el = append(out.el, unknownStruct(st.Field(i).Type()))
+	}
+	return out
 }
